@@ -49,13 +49,15 @@ def ref_fn(r):
 
 
 def case(task):
-    desc, p, Ns, seed = task
-    res = {'task': [list(desc), p, list(Ns)], 'err': {}, 'refmax': {},
-           'raised': None}
+    desc, p, Ns, seed = task[:4]
+    vacuum = bool(task[4]) if len(task) > 4 else False
+    res = {'task': [list(desc), p, list(Ns), vacuum], 'err': {},
+           'refmax': {}, 'raised': None}
     try:
         for N in Ns:
             rel, st, (X, Y, Z), inp = gc.build_core(desc, seed, p, N,
-                                                    with_T=False)
+                                                    with_T=False,
+                                                    vacuum=vacuum)
             ref = gc.ref_chunks(st, fields.T0, X, Y, Z, ref_fn)
             s1 = max(float(ref['_scale1'].max()), 1e-3)
             with gc.quiet():
@@ -63,9 +65,11 @@ def case(task):
                         for k in ALG + FDKEYS}
             if N == Ns[0]:
                 res['order'] = gc.order_dependence(
-                    desc, seed, p, N, ALG + FDKEYS, vals, with_T=False)
+                    desc, seed, p, N, ALG + FDKEYS, vals, with_T=False,
+                    vacuum=vacuum)
                 res['style'] = gc.input_style_dependence(
-                    desc, seed, p, N, ALG + FDKEYS, vals, with_T=False)
+                    desc, seed, p, N, ALG + FDKEYS, vals, with_T=False,
+                    vacuum=vacuum)
             for k in ALG + FDKEYS:
                 rmax = float(np.abs(ref[k]).max())
                 sc = max(rmax, 1e-12) if k in ALG else max(
@@ -112,6 +116,13 @@ def build_tasks(tier, seed):
                 tasks.append((('lattice',) + c + (0.0,), p, (16, 32), seed))
     tasks.append((('mink',), 8, (16, 32), seed))
     tasks.append((('ds',), 4, (14, 20), seed))
+    # the vacuum option does not change the kinematics of the Eulerian
+    # observers
+    tasks.append((('lattice', 'L2', 'S3', 'G2', 'D1', 0.0), 8, (16, 32),
+                  seed, True))
+    tasks.append((('lattice', 'L1', 'S2', 'G1', 'D0', 0.0), 4, (16, 32),
+                  seed, True))
+    tasks.append((('mink',), 8, (16, 32), seed, True))
     return tasks
 
 
@@ -121,8 +132,9 @@ def main(tier):
     results = runner.pmap(case, tasks)
     worst = {}
     for t, r in zip(tasks, results):
-        desc, p, Ns, seed = t
-        tag = ':'.join(str(x) for x in desc) + f":p={p}"
+        desc, p, Ns, seed = t[:4]
+        tag = ':'.join(str(x) for x in desc) + f":p={p}" + (
+            ":vacuum" if len(t) > 4 and t[4] else "")
         if r['raised']:
             run.violation(f"C19:raised:{desc[0]}", f"{tag}: {r['raised']}",
                           {'task': r['task']})
@@ -177,7 +189,8 @@ def main(tier):
 
 def replay(rec):
     t = rec['case']['task']
-    r = case((tuple(t[0]), t[1], tuple(t[2]), rec.get('seed', 0)))
+    r = case((tuple(t[0]), t[1], tuple(t[2]), rec.get('seed', 0),
+              t[3] if len(t) > 3 else False))
     for k, e in r['err'].items():
         print(k, e)
     print(r['raised'])
